@@ -20,6 +20,7 @@ import (
 	"fmt"
 	"io"
 	"math"
+	"sort"
 	"time"
 
 	"github.com/pkg/errors"
@@ -231,21 +232,37 @@ func (b *backend) GetPartitions(ctx context.Context, r *proto.ListPartitionReque
 		klog.Errorf("backend getPartitions %v return err %v", r, err)
 		return nil, err
 	}
-	resp = &proto.ListPartitionResponse{
-		Header:       responseHeader(rev),
-		PartitionNum: int64(len(partitions)),
-	}
+	// the storage may return partitions in any order
+	sort.Slice(partitions, func(i, j int) bool {
+		return bytes.Compare(partitions[i].Start, partitions[j].Start) < 0
+	})
+
 	// kvs length = partition number + 1
-	resp.PartitionKeys = make([][]byte, 0, len(partitions)+1)
-
+	keys := make([][]byte, 0, len(partitions)+1)
 	for idx, p := range partitions {
-		// append range start of partition only
-		resp.PartitionKeys = append(resp.PartitionKeys, p.Start)
-
-		// append last end of partition
-		if idx == len(partitions)-1 {
-			resp.PartitionKeys = append(resp.PartitionKeys, p.End)
+		border := p.Start
+		if idx != 0 {
+			// a border may split the object keys generated from one raw key. Move it to the revision
+			// key of that raw key, otherwise the streams of two partitions return that raw key twice
+			if userKey, revision, decodeErr := b.coder.Decode(border); decodeErr == nil && revision != 0 {
+				border = b.coder.EncodeRevisionKey(userKey)
+			}
+			if bytes.Compare(border, keys[len(keys)-1]) <= 0 {
+				// nothing left between the previous border and this one
+				continue
+			}
 		}
+		// append range start of partition only
+		keys = append(keys, border)
+	}
+	if len(partitions) > 0 {
+		// append last end of partition
+		keys = append(keys, partitions[len(partitions)-1].End)
+	}
+	resp = &proto.ListPartitionResponse{
+		Header:        responseHeader(rev),
+		PartitionNum:  int64(len(keys) - 1),
+		PartitionKeys: keys,
 	}
 	return resp, nil
 }
